@@ -182,7 +182,8 @@ def _py(f):
     return getattr(f, "py_func", f)
 
 
-def trace_boundary_regular(env, fname, tk, sk, two_grids=False, test_elems=(0, 2), trial_elems=(0, 1, 2)):
+def trace_boundary_regular(env, fname, tk, sk, two_grids=False, test_elems=(0, 2), trial_elems=(0, 1, 2), cplx=False,
+                           params=None):
     nk = env.nk
     if two_grids:
         gT, gS, eT, eS = env.gt, env.gs, ELEMS_T, ELEMS_S
@@ -192,11 +193,12 @@ def trace_boundary_regular(env, fname, tk, sk, two_grids=False, test_elems=(0, 2
         eT = eS = ELEMS
     Tsp, Ssp = Space(tk, eT, "test"), Space(sk, eS, "trial")
     result = at.zeros((Tsp.ndofs, Ssp.ndofs))
-    K = Kstub(env)
+    K = Kstub(env, name="Kc" if cplx else "Kf", cplx=cplx)
+    kp = np.array([0.0, 0.0], dtype=object) if params is None else params
     with at.pyfuncs(nk):
         _py(getattr(nk, fname))(gT.data, gS.data, Tsp.nshape, Ssp.nshape, np.array(test_elems), np.array(trial_elems),
                                 Tsp.mult, Ssp.mult, Tsp.l2g, Ssp.l2g, env.nmt, env.nms, env.qp, env.qw, K,
-                                np.array([0.0, 0.0], dtype=object), not two_grids, env.shape(Tsp), env.shape(Ssp), result)
+                                kp, not two_grids, env.shape(Tsp), env.shape(Ssp), result)
     return result, Tsp, Ssp
 
 
@@ -261,21 +263,36 @@ def generate():
         sing_dp0_dp0, _, _ = trace_singular(env, "default_scalar_singular_kernel", "dp0", "dp0")
         pot_dp1, _ = trace_potential(env, "dp1")
         ident_p1_dp0, _, _ = trace_sparse_identity(env, "p1", "dp0")
+        reg_dp1_dp1, _, _ = trace_boundary_regular(env, "default_scalar_regular_kernel", "dp1", "dp1")
+        kp = np.empty(2, dtype=object)
+        kp[0], kp[1] = st.Sym.var("kp_0"), st.Sym.var("kp_1")
+        mhyp_p1_p1, _, _ = trace_boundary_regular(env, "modified_helmholtz_hypersingular_regular", "p1", "p1", params=kp)
+        creg_dp0, _, _ = trace_boundary_regular(env, "default_scalar_regular_kernel", "dp0", "dp0", cplx=True)
+        creg_dp1, _, _ = trace_boundary_regular(env, "default_scalar_regular_kernel", "dp1", "dp1", cplx=True)
+        chyp_p1_p1, _, _ = trace_boundary_regular(env, "helmholtz_hypersingular_regular", "p1", "p1", cplx=True, params=kp)
     except (st.TraceError, AssertionError, AttributeError, TypeError, IndexError, ValueError, KeyError) as e:
         raise GenError(f"assembler tracing failed: {type(e).__name__}: {e}")
     fams = {
         "regular": reg_p1_dp0, "regdp0": reg_dp0_dp0, "hyp": hyp_p1_p1, "dis": dis_p1_dp1,
         "sing": sing_p1_dp0.reshape(-1, 1), "hsing": hsing_p1_p1.reshape(-1, 1), "singdp0": sing_dp0_dp0.reshape(-1, 1),
         "pot": pot_dp1.reshape(-1, 1), "ident": ident_p1_dp0.reshape(-1, 1),
+        "regdp1": reg_dp1_dp1, "mhyp": mhyp_p1_p1,
     }
+    cfams = {"cregdp0": creg_dp0, "cregdp1": creg_dp1, "chyp": chyp_p1_p1}
     entries = {}
     for fam, arr in fams.items():
         for r in range(arr.shape[0]):
             for c in range(arr.shape[1]):
                 entries[(fam, r, c)] = st.Sym.lift(arr[r, c]).t
+    for fam, arr in cfams.items():
+        for r in range(arr.shape[0]):
+            for c in range(arr.shape[1]):
+                re_, im_ = st.parts(arr[r, c])
+                entries[(fam + "re", r, c)] = re_
+                entries[(fam + "im", r, c)] = im_
     ar = atom_arities(entries.values())
     # atoms that the theorems mention even if a trace does not use them
-    for name, n in (("N", 2), ("JIT", 3), ("nmt", 1), ("nms", 1), ("coef", 1), ("ssu", 1), ("ssv", 1)):
+    for name, n in (("N", 2), ("JIT", 3), ("nmt", 1), ("nms", 1), ("coef", 1), ("ssu", 1), ("ssv", 1), ("kp", 1)):
         ar.setdefault(name, n)
     B = binders(ar)
     names = " ".join(sorted(ar))
@@ -398,6 +415,48 @@ def generate():
                                              + " ".join(n if n not in ("mt", "ms") else "(fun _ _ => 1)" for n in sorted(ar)))
             rhs = " +\n        ".join(terms) if terms else "0"
             add(f"hyp_regular_is_curl_curl_sl_{r}_{c}", f"hyp_{r}_{c} {names}\n      = {rhs}", f", hyp_{r}_{c}, {regdp0_names}")
+    # (b1m) modified Helmholtz hypersingular regular = curl·curl × V0 + ω² (n_τ·n_σ) × V1   (ω = kp 0)
+    unit = " ".join(n if n not in ("mt", "ms") else "(fun _ _ => 1)" for n in sorted(ar))
+    regdp1_names = ", ".join(f"regdp1_{a}_{b}" for a in range(3 * NE) for b in range(3 * NE))
+    for r in range(NV):
+        for c in range(NV):
+            terms = []
+            for tau in (0, 2):
+                for sig in (0, 1, 2):
+                    for i in range(3):
+                        for j in range(3):
+                            if ELEMS[i, tau] == r and ELEMS[j, sig] == c:
+                                dot = " + ".join(f"curlT N JIT nmt {tau} {i} {d} * curlS N JIT nms {sig} {j} {d}" for d in range(3))
+                                nn = " + ".join(f"(N {tau} {d} * nmt {tau}) * (N {sig} {d} * nms {sig})" for d in range(3))
+                                terms.append(f"(mt {tau} {i} * ms {sig} {j}) * (({dot}) * regdp0_{tau}_{sig} {unit}"
+                                             f" + kp 0 * kp 0 * ({nn}) * regdp1_{3 * tau + i}_{3 * sig + j} {unit})")
+            rhs = " +\n        ".join(terms) if terms else "0"
+            add(f"hyp_modified_decomposition_{r}_{c}", f"mhyp_{r}_{c} {names}\n      = {rhs}",
+                f", mhyp_{r}_{c}, {regdp0_names}, {regdp1_names}")
+    # (b1h) Helmholtz hypersingular regular = curl·curl × V0 − k² (n_τ·n_σ) × V1, k = kp 0 + i kp 1 (real and imaginary part)
+    cdp0re = ", ".join(f"cregdp0re_{a}_{b}, cregdp0im_{a}_{b}" for a in range(NE) for b in range(NE))
+    cdp1re = ", ".join(f"cregdp1re_{a}_{b}, cregdp1im_{a}_{b}" for a in range(3 * NE) for b in range(3 * NE))
+    for part in ("re", "im"):
+        for r in range(NV):
+            for c in range(NV):
+                terms = []
+                for tau in (0, 2):
+                    for sig in (0, 1, 2):
+                        for i in range(3):
+                            for j in range(3):
+                                if ELEMS[i, tau] == r and ELEMS[j, sig] == c:
+                                    dot = " + ".join(f"curlT N JIT nmt {tau} {i} {d} * curlS N JIT nms {sig} {j} {d}" for d in range(3))
+                                    nn = " + ".join(f"(N {tau} {d} * nmt {tau}) * (N {sig} {d} * nms {sig})" for d in range(3))
+                                    v0 = f"cregdp0{part}_{tau}_{sig} {unit}"
+                                    v1re = f"cregdp1re_{3 * tau + i}_{3 * sig + j} {unit}"
+                                    v1im = f"cregdp1im_{3 * tau + i}_{3 * sig + j} {unit}"
+                                    k2re, k2im = "(kp 0 * kp 0 - kp 1 * kp 1)", "(2 * kp 0 * kp 1)"
+                                    k2v1 = (f"({k2re} * {v1re} - {k2im} * {v1im})" if part == "re"
+                                            else f"({k2re} * {v1im} + {k2im} * {v1re})")
+                                    terms.append(f"(mt {tau} {i} * ms {sig} {j}) * (({dot}) * {v0} - ({nn}) * {k2v1})")
+                rhs = " +\n        ".join(terms) if terms else "0"
+                add(f"hyp_helmholtz_decomposition_{part}_{r}_{c}", f"chyp{part}_{r}_{c} {names}\n      = {rhs}",
+                    f", chyp{part}_{r}_{c}, {cdp0re}, {cdp1re}")
     # (b2) hypersingular singular local integral = curl·curl × single layer singular local integral (dp0 x dp0)
     for k, pr in enumerate(SING_PAIRS):
         for i in range(3):
